@@ -151,11 +151,10 @@ ScriptSwapDefer2 == <<S("Commit", "ins", 1, 2), S("Process", "", 0, 0), S("Lock"
                       S("Pipe", "", 0, 0)>>
 
 \* wide sharing (ShapesFan): 765 leaves under tree 1, all of them referenced again by tree 2 in one transaction; applied,
-\* cleaned, restarted; then both trees dereferenced - counts and storage are compared after every step
+\* restarted (the clean close applies everything); then both trees dereferenced - counts and storage are compared at every restart
 ScriptFan == <<S("Commit", "ins", 1, 2), S("Process", "", 0, 0), S("Commit", "ins", 2, 1), S("Process", "", 0, 0),
-               S("Pipe", "", 0, 0), S("Pipe", "", 0, 0), S("Pipe", "", 0, 0), S("Restart", "", 0, 0),
-               S("Commit", "deref", 1, 0), S("Process", "", 0, 0), S("Pipe", "", 0, 0), S("Pipe", "", 0, 0), S("Pipe", "", 0, 0),
-               S("Commit", "deref", 2, 0), S("Process", "", 0, 0), S("Pipe", "", 0, 0), S("Pipe", "", 0, 0), S("Pipe", "", 0, 0)>>
+               S("Restart", "", 0, 0), S("Commit", "deref", 1, 0), S("Process", "", 0, 0), S("Restart", "", 0, 0),
+               S("Commit", "deref", 2, 0), S("Process", "", 0, 0), S("Restart", "", 0, 0)>>
 
 \* exhaustive checking: the observation history stays empty
 MCSpec == Init /\ obs = <<>> /\ closing = FALSE /\ [][Next /\ UNCHANGED <<obs, closing>>]_<<vars, obs, closing>>
